@@ -171,6 +171,7 @@ def attrToks (kv : PStr × AttrVal) : List Tok :=
   | .none => [.lit kv.1]
   | .str s => if s = [] then [.emptyAttr kv.1] else [.lit (kv.1 ++ [61]), .attrVal s]
   | .list l => [.lit (kv.1 ++ [61]), .attrVal ([32].intercalate l)]
+  | .other s => [.lit (kv.1 ++ [61]), .attrVal s]
 
 /-- pieces of `" " + " ".join(attrs)` -/
 def attrsToks : List (PStr × AttrVal) → List Tok
@@ -211,6 +212,7 @@ theorem attrPiece_toks (c : Cfg) (i : Subst → PStr → PStr) (kv : PStr × Att
       cases he : c.empty_attributes_are_booleans <;> simp [attrPiece, boolify, attrToks, interpTok, he]
     · cases c.empty_attributes_are_booleans <;> simp [attrPiece, boolify, attrToks, interpTok, hs]
   | list l => simp [attrPiece, boolify, attrToks, interpTok]
+  | other s => simp [attrPiece, boolify, attrToks, interpTok]
 
 theorem intercalate_cons_sp (x : PStr) (xs : List PStr) :
     [32] ++ [32].intercalate (x :: xs) = [32] ++ x ++ (if xs.isEmpty then [] else [32] ++ [32].intercalate xs) := by
@@ -369,6 +371,7 @@ def mapAttr (eab : Bool) (g : PStr → PStr) (kv : PStr × AttrVal) : PStr × At
   | .none => (kv.1, .none)
   | .str s => if eab && s == [] then (kv.1, .none) else (kv.1, .str (g s))
   | .list l => (kv.1, .str (g ([32].intercalate l)))
+  | .other s => (kv.1, .str (g s))
 
 mutual
 /-- apply `g` to exactly: the ordinary strings whose parent is not a cdata-containing tag, and the attribute values -/
@@ -399,6 +402,7 @@ theorem attrPiece_mapAttr (c : Cfg) (i : Subst → PStr → PStr) (h : c.entity_
       cases he : c.empty_attributes_are_booleans <;> simp [attrPiece, boolify, mapAttr, plain, substitute, h]
     · cases he : c.empty_attributes_are_booleans <;> simp [attrPiece, boolify, mapAttr, plain, substitute, h, hs]
   | list l => simp [attrPiece, boolify, mapAttr, plain, substitute, h]
+  | other s => simp [attrPiece, boolify, mapAttr, plain, substitute, h]
 
 theorem attrString_mapAttr (c : Cfg) (i : Subst → PStr → PStr) (h : c.entity_substitution ≠ .none) (as : List (PStr × AttrVal)) :
     attrString c i as
